@@ -274,6 +274,43 @@ def run(ctx):
                 ctx.spec_fail('todb|autocommit-connection|partial-or-emptied',
                               'a load through a connection in autocommit mode whose source fails leaves an emptied or partly loaded table',
                               {'op': 'todb' if trunc else 'appenddb', 'fail_at': fail_at, 'raised': raised, 'fresh_connection_sees': repr(seen)})
+        # ---- a load through a file name that has written more than sqlite's page cache (about 2 MB) when the source fails:
+        # whatever was spilled into the file must be gone again once the call has returned
+        for ci, (trunc, frac) in enumerate([(True, 0.75), (False, 0.75), (True, 1.0)]):
+            pb_ = os.path.join(tmpd, 'big_%d.sqlite' % ci)
+            if os.path.exists(pb_):
+                os.unlink(pb_)
+            c0 = sqlite3.connect(pb_)
+            c0.execute('CREATE TABLE t (a, b)')
+            bigprior = [('old%06d' % i + 'y' * 180, i) for i in range(3000)]      # pages of the old contents are what a load without a journal overwrites
+            c0.executemany('INSERT INTO t VALUES (?, ?)', bigprior)
+            c0.commit()
+            c0.close()
+            nbig = 24000
+            stop = int(nbig * frac)
+
+            def bigfailing(stop=stop, nbig=nbig):
+                yield ('a', 'b')
+                for i in range(nbig):
+                    if i == stop:
+                        raise Boom()
+                    yield ('new%06d' % i + 'x' * 240, i)
+                raise Boom()
+            try:
+                (etl.todb if trunc else etl.appenddb)(bigfailing(), pb_, 't')
+                raised = None
+            except Boom:
+                raised = 'Boom'
+            except Exception as e:   # noqa
+                raised = type(e).__name__
+            seen = fresh_contents(pb_)
+            ctx.case(('filename-beyond-page-cache', trunc, frac))
+            ctx.count('handle:filename-beyond-page-cache')
+            if raised != 'Boom' or seen != bigprior:
+                ctx.spec_fail('%s|filename|beyond-page-cache|partial-or-emptied' % ('todb' if trunc else 'appenddb'),
+                              'a load through a file name whose source fails after several megabytes were written leaves an emptied or partly loaded table',
+                              {'op': 'todb' if trunc else 'appenddb', 'rows_before_failure': stop, 'bytes_per_row': 250, 'raised': raised,
+                               'fresh_connection_sees': '%d rows, first %r' % (len(seen), seen[:1])})
         # ---- schema=: the table named is the one replaced / extended, also when another schema of the connection has a table of
         # the same name that sqlite would resolve first (a TEMP table, main before an attached database)
         for ci in range(24 if ctx.thorough() else 8):
